@@ -180,7 +180,8 @@ func ExplorePart(name string, mk func() (*Env, Driver), depthQuick, depthThoroug
 				Bounds: map[string]interface{}{"depth": depth, "workers": workers}, Internal: r.InternalError, Rule: rule,
 				KnownSeen: r.KnownSeen}
 			for k, h := range r.OpHist {
-				if h["ok"] == 0 && h["block"] == 0 {
+				// kinds starting with '!' are operations the property forbids to succeed
+				if h["ok"] == 0 && h["block"] == 0 && !strings.HasPrefix(k, "!") {
 					rep.NeverOK = append(rep.NeverOK, k)
 				}
 			}
